@@ -146,10 +146,14 @@ func body(c *kernel.Ctx) {
 	corpus := map[string]*pbv1.QBFTConsensusMsg{}
 	var order []string
 	phase := 1
+	var tOut [][]byte // every consensus envelope the target sends, in send order
 	cl.Net.Fate = func(e *simnet.Envelope) simnet.Fate {
 		f := simnet.Fate{Delay: time.Duration(verifrt.Intn("n", maxDelay)) * time.Millisecond}
 		mu.Lock()
 		ph := phase
+		if e.Proto == protoQBFT && e.From == cl.PeerIDs[target] {
+			tOut = append(tOut, append([]byte(nil), e.Payload...))
+		}
 		mu.Unlock()
 		if ph != 1 || e.Proto != protoQBFT {
 			return f
@@ -177,6 +181,7 @@ func body(c *kernel.Ctx) {
 
 	// ---- phase 1: run two duties among the active nodes ------------------------------------
 	decided := map[string][]*pbv1.UnsignedDataSet{}
+	decidedNode := map[string][]int{}
 	for i := 0; i < n; i++ {
 		nd := cl.StartNode(i)
 		me := i
@@ -187,6 +192,7 @@ func body(c *kernel.Ctx) {
 			}
 			mu.Lock()
 			decided[d.String()] = append(decided[d.String()], pb)
+			decidedNode[d.String()] = append(decidedNode[d.String()], me)
 			mu.Unlock()
 			verifrt.Note("n%d decided %s", me, d)
 			return nil
@@ -246,6 +252,17 @@ func body(c *kernel.Ctx) {
 		i1, q1 := tn.Cons.VerifQueued()
 		return i1 - i0, q1 - q0
 	}
+	// several messages at the same simulated instant: their handler goroutines interleave as the scheduler chooses
+	deliverN := func(items []inj) {
+		delay := time.Duration(verifrt.Intn("n", 5)) * time.Millisecond
+		var chs []<-chan []byte
+		for _, it := range items {
+			chs = append(chs, cl.Net.Inject(it.from, cl.PeerIDs[target], protoQBFT, it.raw, delay))
+		}
+		for _, ch := range chs {
+			verifrt.RecvTimeout(ch, nil, 20*time.Second)
+		}
+	}
 	// pick representatives: one message per (duty, type, has-justification, has-prepared) class
 	classOf := func(m *pbv1.QBFTConsensusMsg) string {
 		hasPrep := false
@@ -266,7 +283,48 @@ func body(c *kernel.Ctx) {
 			repKeys = append(repKeys, cls)
 		}
 	}
+	// shapes live instances do not put on the wire, or did not in this run, are built by the harness from
+	// the members' keys: DECIDED justified by a quorum of harvested genuine COMMITs; PRE-PREPARE of round 2
+	// justified by ROUND-CHANGEs (null / prepared with PREPAREs)
+	bld := &builder{cl: cl, n: n, q: cl.Threshold, skip: target}
+	extra := map[string][]alt{}
+	addRep := func(cls string, m *pbv1.QBFTConsensusMsg) {
+		reps[cls] = m
+		repKeys = append(repKeys, cls)
+	}
+	if cq := findCommitQuorum(corpus, keys, duty, bld.q); cq != nil {
+		signer := int(cq.commits[verifrt.Intn("w", len(cq.commits))].GetPeerIdx())
+		dm := bld.decided(duty, signer, cq.round, cq.vh, cq.commits, cq.vals)
+		addRep(classOf(dm), dm)
+		verifrt.Probe("built:decided-from-harvested-commits")
+		// the decision quorum of another duty, validly signed throughout, replayed into this duty
+		if cq2 := findCommitQuorum(corpus, keys, duty2, bld.q); cq2 != nil {
+			x := bld.decided(duty, signer, cq2.round, cq2.vh, cq2.commits, cq2.vals)
+			extra[classOf(dm)] = append(extra[classOf(dm)], alt{class: "cross-duty/decided-by-commit-quorum-of-another-duty", msg: x})
+		}
+	} else {
+		verifrt.Probe("built:no-commit-quorum-harvested")
+	}
+	{
+		vpb := propSet(cl, duty, 0)
+		val, _ := anypb.New(vpb)
+		force := verifrt.Intn("cfg", 10) // 0: only what is missing; 8, 9: also build a shape that was harvested
+		for i, prepared := range []bool{false, true} {
+			pp := bld.prePrepare(duty, 2, valueHash(vpb), val, prepared)
+			cls := classOf(pp)
+			if _, ok := reps[cls]; !ok {
+				addRep(cls, pp)
+				verifrt.Probe("built:pre_prepare-shape-missing-from-corpus")
+			} else if force == 8+i {
+				addRep(cls+"/built", pp)
+				verifrt.Probe(fmt.Sprintf("built:pre_prepare-prepared=%v", prepared))
+			}
+		}
+	}
 	sort.Strings(repKeys)
+	for _, cls := range repKeys {
+		verifrt.Probe("class:" + cls[strings.Index(cls, "/")+1:])
+	}
 	c.Set("corpus_messages", len(keys))
 	c.Set("classes", repKeys)
 	var other *pbv1.QBFTConsensusMsg // a message of the other duty (cross-duty material)
@@ -275,7 +333,37 @@ func body(c *kernel.Ctx) {
 			other = reps[cls]
 		}
 	}
+	// ---- phase 2a: the target runs a live instance of a third duty -----------------------------
+	if verifrt.Intn("cfg", 4) != 0 {
+		liveScript(&env{c: c, cl: cl, n: n, q: bld.q, target: target, tn: tn, slot: slot, bld: bld, other: other, deliverN: deliverN,
+			outCount: func() int { mu.Lock(); defer mu.Unlock(); return len(tOut) },
+			outSince: func(i int) []*pbv1.QBFTConsensusMsg {
+				mu.Lock()
+				defer mu.Unlock()
+				var out []*pbv1.QBFTConsensusMsg
+				for _, raw := range tOut[i:] {
+					if m, err := unframe(raw); err == nil {
+						out = append(out, m)
+					}
+				}
+				return out
+			},
+			decidedBy: func(d core.Duty, node int) []*pbv1.UnsignedDataSet {
+				mu.Lock()
+				defer mu.Unlock()
+				var out []*pbv1.UnsignedDataSet
+				for i, nd := range decidedNode[d.String()] {
+					if nd == node {
+						out = append(out, decided[d.String()][i])
+					}
+				}
+				return out
+			},
+		})
+	}
+	// ---- phase 2b: enumeration against the passive instance -----------------------------------
 	total, rejected := 0, 0
+	var perClass []string
 	for _, cls := range repKeys {
 		m := reps[cls]
 		if core.DutyFromProto(m.GetMsg().GetDuty()) != duty {
@@ -289,7 +377,34 @@ func body(c *kernel.Ctx) {
 			continue
 		}
 		verifrt.Probe("control-accepted:" + typeName(m))
-		for _, a := range alterations(cl, m, other, n) {
+		jfull := -1
+		if m.GetMsg().GetType() == 5 || strings.HasSuffix(cls, "/built") {
+			// harness-built classes: one justification drawn per run gets every value of every field, the others
+			// one alteration per field (keeps the cost of a run close to what it was)
+			jfull = verifrt.Intn("w", len(m.GetJustification()))
+		}
+		alts := append(alterationsJ(cl, m, other, n, jfull), extra[cls]...)
+		perClass = append(perClass, fmt.Sprintf("%s=%d", typeName(m), len(alts)))
+		if other != nil {
+			// at the same simulated instant: an altered copy, the authentic original and an authentic message of
+			// another duty; the authentic ones are counted once each, the altered one not at all
+			a := pickConcurrent(alts)
+			od := core.DutyFromProto(other.GetMsg().GetDuty())
+			_, q0 := tn.Cons.VerifQueued()
+			qd, qo := tn.Cons.VerifQueuedFor(duty), tn.Cons.VerifQueuedFor(od)
+			verifrt.Fault("alt")
+			verifrt.Probe("concurrent:passive")
+			total++
+			c.State(hashStr(typeName(m) + "|concurrent|" + a.class))
+			deliverN([]inj{{src, rawOf(a)}, {src, frame(m)}, {cl.PeerIDs[other.GetMsg().GetPeerIdx()], frame(other)}})
+			_, q1 := tn.Cons.VerifQueued()
+			if dd, do := tn.Cons.VerifQueuedFor(duty)-qd, tn.Cons.VerifQueuedFor(od)-qo; dd != 1 || do != 1 || q1-q0 != 2 {
+				c.Violate("C05", "concurrent", typeName(m)+"/concurrent-altered-copy", "altered %s (%s), its authentic original and an authentic message of %s delivered at the same instant: queue of %s %+d (want +1), queue of %s %+d (want +1), all queues %+d (want +2)", cls, a.class, od, duty, dd, od, do, q1-q0)
+			} else {
+				rejected++
+			}
+		}
+		for _, a := range alts {
 			raw := a.raw
 			if raw == nil {
 				raw = frame(a.msg)
@@ -311,7 +426,7 @@ func body(c *kernel.Ctx) {
 		}
 	}
 	// crafted, validly signed messages: window, membership and range checks
-	for _, a := range crafted(cl, duty, n, slot) {
+	for _, a := range crafted(cl, bld, duty, n, slot) {
 		di, dq := deliver(cl.PeerIDs[0], frame(a.msg))
 		total++
 		c.State(hashStr("crafted|" + a.class))
@@ -319,9 +434,12 @@ func body(c *kernel.Ctx) {
 		if strings.HasPrefix(a.class, "control/") {
 			want = 1
 		}
+		if dq == want && want == 1 {
+			verifrt.Probe("crafted-" + a.class)
+		}
 		if dq != want {
 			if want == 1 {
-				c.Violate("C05", "control-rejected", "crafted-valid-message-not-accepted", "a validly signed PREPARE for a duty inside the allowed window was not queued (instances %+d, queued %+d)", di, dq)
+				c.Violate("C05", "control-rejected", "crafted-valid-message-not-accepted/"+a.class, "a validly signed message (%s) for a duty inside the allowed window was not queued (instances %+d, queued %+d)", a.class, di, dq)
 			} else {
 				c.Violate("C05", "accepted-altered", "crafted/"+a.class, "validly signed but inadmissible message (%s) changed consensus state: instances %+d, queued %+d", a.class, di, dq)
 			}
@@ -354,9 +472,10 @@ func body(c *kernel.Ctx) {
 			})
 			verifrt.RecvTimeout(done, nil, 30*time.Second)
 		}
+		expiredDone := 0
 		for _, cls := range repKeys {
 			m := reps[cls]
-			if core.DutyFromProto(m.GetMsg().GetDuty()) != duty {
+			if core.DutyFromProto(m.GetMsg().GetDuty()) != duty || (expiredDone > 0 && m.GetMsg().GetType() != 5) {
 				continue
 			}
 			di, dq := deliver(cl.PeerIDs[m.GetMsg().GetPeerIdx()], frame(m))
@@ -367,10 +486,11 @@ func body(c *kernel.Ctx) {
 			} else {
 				rejected++
 			}
-			break
+			expiredDone++ // after the first class only the DECIDED (if any) is replayed
 		}
 	}
 	c.Set("alterations_injected", total)
+	c.Set("alterations_per_class", perClass)
 	c.Set("alterations_rejected", rejected)
 	if total > 0 {
 		c.Progress()
@@ -409,9 +529,12 @@ func cloneMsg(m *pbv1.QBFTConsensusMsg) *pbv1.QBFTConsensusMsg {
 
 // fieldAlts alters every field of one QBFTMsg (all of them are covered by its signature), found by
 // protobuf reflection so that a newly added field is enumerated automatically.
-func fieldAlts(prefix string, get func(*pbv1.QBFTConsensusMsg) *pbv1.QBFTMsg, m *pbv1.QBFTConsensusMsg) []alt {
+func fieldAlts(prefix string, get func(*pbv1.QBFTConsensusMsg) *pbv1.QBFTMsg, m *pbv1.QBFTConsensusMsg, brief bool) []alt {
 	var out []alt
 	add := func(class string, mut func(q *pbv1.QBFTMsg)) {
+		if brief && !strings.HasSuffix(class, "/+1") && !strings.HasSuffix(class, "/flip-first") && !strings.HasSuffix(class, "/removed") {
+			return // brief: one alteration per field
+		}
 		cp := cloneMsg(m)
 		mut(get(cp))
 		if proto.Equal(cp, m) {
@@ -503,15 +626,21 @@ func fieldAlts(prefix string, get func(*pbv1.QBFTConsensusMsg) *pbv1.QBFTMsg, m 
 }
 
 func alterations(cl *cluster.Cluster, m, other *pbv1.QBFTConsensusMsg, n int) []alt {
+	return alterationsJ(cl, m, other, n, -1)
+}
+
+// alterationsJ: jfull >= 0 enumerates every value of every field only for justification jfull and one
+// alteration per field for the other justifications (the caller draws jfull per run).
+func alterationsJ(cl *cluster.Cluster, m, other *pbv1.QBFTConsensusMsg, n int, jfull int) []alt {
 	var out []alt
-	out = append(out, fieldAlts("top", func(x *pbv1.QBFTConsensusMsg) *pbv1.QBFTMsg { return x.Msg }, m)...)
+	out = append(out, fieldAlts("top", func(x *pbv1.QBFTConsensusMsg) *pbv1.QBFTMsg { return x.Msg }, m, false)...)
 	// each attached justification, every field (cap the number of justifications enumerated per message)
 	for j := range m.GetJustification() {
 		if j >= 3 && j != len(m.GetJustification())-1 {
 			continue
 		}
 		j := j
-		for _, a := range fieldAlts("just", func(x *pbv1.QBFTConsensusMsg) *pbv1.QBFTMsg { return x.Justification[j] }, m) {
+		for _, a := range fieldAlts("just", func(x *pbv1.QBFTConsensusMsg) *pbv1.QBFTMsg { return x.Justification[j] }, m, jfull >= 0 && j != jfull) {
 			out = append(out, a)
 		}
 	}
@@ -650,7 +779,7 @@ func sortedKeys(m map[string][]byte) []string {
 
 // crafted returns validly signed messages (member or non-member keys) that must be refused for
 // reasons other than the signature, plus one that must be accepted.
-func crafted(cl *cluster.Cluster, duty core.Duty, n int, slot uint64) []alt {
+func crafted(cl *cluster.Cluster, bld *builder, duty core.Duty, n int, slot uint64) []alt {
 	nowSlot := uint64(time.Since(cl.Chain.GenesisTime) / cl.Cfg.SlotDuration) // the gater's notion of the current slot
 	val, _ := anypb.New(&pbv1.UnsignedDataSet{Set: map[string][]byte{"x": {1, 2, 3}}})
 	vh := valueHash(&pbv1.UnsignedDataSet{Set: map[string][]byte{"x": {1, 2, 3}}})
@@ -662,7 +791,19 @@ func crafted(cl *cluster.Cluster, duty core.Duty, n int, slot uint64) []alt {
 	k0 := cl.Keys[0]
 	outsider := cluster.P2PKey(40)
 	perEpoch := cl.Cfg.SlotsPerEpoch
+	// a DECIDED with its quorum of COMMITs, every part validly signed by members for duty d
+	mkDecided := func(class string, d core.Duty) alt {
+		voters := bld.members(bld.q)
+		var commits []*pbv1.QBFTMsg
+		for _, s := range voters {
+			commits = append(commits, bld.mk(3, d, s, 1, vh, 0, zero32))
+		}
+		return alt{class: class, msg: bld.decided(d, voters[0], 1, vh, commits, []*anypb.Any{val})}
+	}
 	return []alt{
+		mkDecided("control/decided-next-epoch-duty", core.NewAttesterDuty(slot+perEpoch+1)),
+		mkDecided("window/decided-far-future-duty", core.NewAttesterDuty(slot+4*perEpoch+1)),
+		mkDecided("window/decided-expired-duty", core.NewAttesterDuty(slot-3*perEpoch)),
 		mk("control/valid-signed-next-epoch-duty", k0, func(q *pbv1.QBFTMsg) { q.Duty = core.DutyToProto(core.NewAttesterDuty(slot + perEpoch)) }),
 		mk("window/far-future-duty", k0, func(q *pbv1.QBFTMsg) { q.Duty = core.DutyToProto(core.NewAttesterDuty(slot + 4*perEpoch)) }),
 		mk("window/first-slot-of-epoch-beyond-window", k0, func(q *pbv1.QBFTMsg) { q.Duty = core.DutyToProto(core.NewAttesterDuty((nowSlot/perEpoch + 3) * perEpoch)) }),
